@@ -273,6 +273,45 @@ fn select(op: &FormulaOperator, lhs: Value, rhs: Value) -> (r: Result<Fx, TermEr
             if re.search(r"\blhs\s*=[^=]", wo_closures):
                 trans.append("lhs = havoc();")
     loop_body = "\n    ".join(trans)
+    # statements of term() outside the loop: known shapes are mapped, a statement over the fold's own data (trm.lhs / trm.rhs / factor) is kept after
+    # renaming, anything else is abstracted but keeps its exits (a `return` that is not an error returns an ARBITRARY value) and its writes to `lhs`
+    li = stm.index(loop[0])
+    outer_shapes = [
+        (r"let plan = p\.plan\(\);$", "/* let plan = p.plan(); */"),
+        (r"let mut lhs = factor\(&trm\.lhs, env, p\)\?;$", "let mut lhs = factor(lhs0)?;"),
+        (r"let mut term_plan\s*:\s*Vec<Box<dyn MechFunction>>\s*=\s*vec!\[\];$", "/* let mut term_plan = vec![]; */"),
+        (r"let mut plan_brrw = plan\.borrow_mut\(\);$", "/* let mut plan_brrw = plan.borrow_mut(); */"),
+        (r"plan_brrw\.append\(&mut term_plan\);$", "/* plan_brrw.append(&mut term_plan); */"),
+        (r"(return\s+)?Ok\(lhs\);?$", "return Ok(lhs);"),
+    ]
+    def outer(sts):
+        out = []
+        for st in sts:
+            st1 = st.strip()
+            while True:
+                st2 = re.sub(r"^(//[^\n]*\n\s*|/\*.*?\*/\s*|#\[[^\]]*\]\s*)", "", st1, count=1, flags=re.S)
+                if st2 == st1:
+                    break
+                st1 = st2
+            for rx, o in outer_shapes:
+                if re.match(rx, st1, re.S):
+                    out.append(o)
+                    break
+            else:
+                light = re.sub(r"//[^\n]*", "", st1)
+                light = re.sub(r"\bfactor\(\s*&trm\.lhs\s*,\s*env\s*,\s*p\s*\)", "factor(lhs0)", light)
+                light = re.sub(r"&?\btrm\.rhs\b", "rhs_list", light)
+                if set(re.findall(r"[A-Za-z_]\w*", light)) <= {"if", "else", "return", "let", "mut", "lhs", "lhs0", "rhs_list", "factor", "is_empty", "len", "Ok", "true", "false"}:
+                    out.append(light)
+                    continue
+                wo_closures = re.sub(r"\|[^|]*\|\s*\{", "{", st1)
+                out.append("// abstracted statement: " + " ".join(st1.split())[:100])
+                if re.search(r"\breturn\b(?!\s+Err\()", wo_closures):
+                    out.append("if nondet() { return Ok(havoc()); }")
+                if re.search(r"\blhs\s*=[^=]", wo_closures):
+                    out.append("lhs = havoc();")
+        return "\n  ".join(out)
+    pre_stmts, post_stmts = outer(stm[:li]), outer(stm[li + 1:])
     items.append("""
 // ---- left fold: one grammar level `a op1 b op2 c ..` evaluates as ((a op1 b) op2 c) ..
 pub struct Factor { pub id: int }
@@ -325,7 +364,7 @@ proof fn lemma_fold_snoc(acc: Value, ops: Seq<(FormulaOperator, Factor)>, n: int
 fn term_fold(lhs0: &Factor, rhs_list: &Vec<(FormulaOperator, Factor)>) -> (r: Result<Value, TermErr>)
   ensures r matches Ok(v) ==> v == fold_left(eval(*lhs0), rhs_list@),
 {
-  let mut lhs = factor(lhs0)?;
+  %s
   let mut i: usize = 0;
   while i < rhs_list.len()
     invariant i <= rhs_list@.len(), lhs == fold_left(eval(*lhs0), rhs_list@.subrange(0, i as int)),
@@ -337,9 +376,9 @@ fn term_fold(lhs0: &Factor, rhs_list: &Vec<(FormulaOperator, Factor)>) -> (r: Re
     i += 1;
   }
   proof { assert(rhs_list@.subrange(0, rhs_list@.len() as int) =~= rhs_list@); }
-  Ok(lhs)
+  %s
 }
-""" % loop_body)
+""" % (pre_stmts, loop_body, post_stmts))
     fns["term_fold"] = "C02.term.left_fold"
     items.append(vlib.verus_canary("canary_c02", "x: u64", []))
     text = "use vstd::prelude::*;\nverus! {\n" + "\n".join(items) + "\n} // verus!\nfn main() {}\n"
